@@ -6,7 +6,10 @@ CONSTANT Scenario
 
 MCKeys == {"#s", "@t", "n"}
 MCVals == {"x", "y"}
+\* P50 stands for a point in a SECOND namespace that sorts before the first one while its numeric value is larger
+\* (harness/obs: names numbered from 50): ID order is (type, namespace, value), not (type, value)
 MCIDOrder == IF Scenario = 3 THEN <<"P0", "P1", "P2", "P3", "W1", "W2", "A1", "A2", "A3", "R1">>
+             ELSE IF Scenario = 2 THEN <<"P50", "P0", "P1", "P2", "P3", "W1", "W2", "A1", "R1", "C1">>
              ELSE <<"P0", "P1", "P2", "P3", "W1", "W2", "A1", "R1", "C1">>
 T(s, t, n) == [k \in MCKeys |-> IF k = "#s" THEN s ELSE IF k = "@t" THEN t ELSE n]
 NT == T("-", "-", "-")
@@ -34,7 +37,8 @@ Alt1 == [ P0 |-> {Pt(0, NT), Pt(0, T("x", "-", "-"))},
 NoUpper == [id \in {MCIDOrder[i] : i \in DOMAIN MCIDOrder} |-> {Absent}]
 
 \* scenario 2: a fixed family of bases, every combination of upper-layer features (C16)
-Alt2 == [ P0 |-> {Pt(0, T("x", "-", "-"))},
+Alt2 == [ P50 |-> {Absent, Pt(6, T("x", "-", "-"))},
+          P0 |-> {Pt(0, T("x", "-", "-"))},
           P1 |-> {Pt(1, NT)},
           P2 |-> {Pt(2, T("-", "-", "y"))},
           P3 |-> {Absent, Pt(3, T("-", "x", "-"))},
@@ -43,7 +47,8 @@ Alt2 == [ P0 |-> {Pt(0, T("x", "-", "-"))},
           A1 |-> {Absent, Ar(<< <<"W1">> >>, T("y", "-", "-"))},
           R1 |-> {Re(<<"W1", "P0">>, T("-", "x", "-"))},
           C1 |-> {Absent} ]
-Upper2 == [ P0 |-> {Absent, Pt(0, T("y", "-", "x")), Pt(4, T("x", "x", "-"))},
+Upper2 == [ P50 |-> {Absent, Pt(7, T("x", "-", "y"))},
+            P0 |-> {Absent, Pt(0, T("y", "-", "x")), Pt(4, T("x", "x", "-"))},
             P1 |-> {Absent, Pt(1, T("x", "-", "-"))},
             P2 |-> {Absent},
             P3 |-> {Absent, Pt(5, NT)},
